@@ -215,6 +215,86 @@ def run(ck: Check):
             ck.disagree("a frozen layer whose parameters were replaced afterwards does not code with its current thresholds",
                         {"init": init, "current_thresholds": cur.tolist()}, signature={"what": "stale-frozen-thresholds"})
         ck.count("protocol_checks", 2)
+    # (iii) persistence: a frozen layer saved and loaded into a freshly built one reads the same thresholds and gives the same hard
+    # code (the frozen flag decides how the stored increments are read); (iv) an optimizer built before the freeze does not move the
+    # frozen thresholds (stale gradient + momentum / weight decay); (v) arguments for which no ordered code exists are refused or
+    # still give a valid code: slope <= 0 or NaN, NaN / infinite initial thresholds
+    import io
+    for init in ([1.0, 2.0, 3.0], [0.4, 0.9, 2.6, 7.2], [32.0, 64.0, 96.0]):
+        xin = torch.tensor([init[0] - 0.3, init[0] + 0.3, init[1] + 0.2, init[-1] + 1.0, init[-1] - 0.2, 0.0]).reshape(1, 2, 3)
+        a = LTT0(init_thresholds=init)
+        with torch.no_grad():
+            a.raw_diffs.add_(0.21)
+        a.freeze_thresholds()
+        ta = a.get_thresholds().detach().clone()
+        with torch.no_grad():
+            ya = a(xin)
+        for how in ("state_dict", "torch.save"):
+            b = LTT0(init_thresholds=[v + 0.125 for v in init])
+            sd = a.state_dict()
+            if how == "torch.save":
+                buf = io.BytesIO()
+                torch.save(sd, buf)
+                buf.seek(0)
+                sd = torch.load(buf, weights_only=False)
+            ck.case({"kind": "frozen-roundtrip", "init": init, "how": how}, nontrivial=True, kind="protocol")
+            try:
+                b.load_state_dict(sd)
+                tb = b.get_thresholds().detach()
+                with torch.no_grad():
+                    yb = b(xin)
+            except Exception as e:
+                ck.disagree("the state of a frozen thermometer layer cannot be loaded into a fresh layer", {"init": init, "how": how},
+                            observed=repr(e)[:200], signature={"what": "frozen-roundtrip"})
+                continue
+            if not torch.equal(tb, ta) or not torch.equal(ya, yb):
+                ck.disagree("a frozen thermometer layer saved and loaded into a fresh layer reads other thresholds / gives another code",
+                            {"init": init, "how": how, "saved_thresholds": ta.tolist(), "loaded_thresholds": tb.tolist()},
+                            signature={"what": "frozen-roundtrip"})
+        for opt_name in ("adam", "sgd-momentum", "sgd-weight-decay"):
+            lay = LTT0(init_thresholds=init)
+            other = torch.nn.Parameter(torch.zeros(1))
+            params = list(lay.parameters()) + [other]
+            opt = {"adam": lambda: torch.optim.Adam(params, lr=0.05),
+                   "sgd-momentum": lambda: torch.optim.SGD(params, lr=0.05, momentum=0.9),
+                   "sgd-weight-decay": lambda: torch.optim.SGD(params, lr=0.05, weight_decay=0.1)}[opt_name]()
+            for _ in range(3):
+                opt.zero_grad(set_to_none=False)
+                (lay(xin).sum() + other.sum()).backward()
+                opt.step()
+            lay.freeze_thresholds()
+            tf = lay.get_thresholds().detach().clone()
+            for _ in range(3):
+                opt.zero_grad(set_to_none=False)
+                (lay(xin).sum() * 0 + (other * 2).sum()).backward()
+                opt.step()
+            ck.case({"kind": "optimizer-after-freeze", "init": init, "optimizer": opt_name}, nontrivial=True, kind="protocol")
+            tn = lay.get_thresholds().detach()
+            if not torch.equal(tf, tn):
+                ck.disagree("an optimizer built before the freeze moved the frozen thresholds", {"init": init, "optimizer": opt_name,
+                            "frozen": tf.tolist(), "after_steps": tn.tolist()}, signature={"what": "frozen-moved"})
+            else:
+                check_layer(lay, {"kind": "optimizer-after-freeze", "init": init, "optimizer": opt_name}, frozen_times=1)
+    for bad_kw, what in (({"slope": 0.0}, "slope"), ({"slope": -5.0}, "slope"), ({"slope": float("nan")}, "slope"),
+                         ({"init_thresholds": [1.0, float("nan"), 3.0]}, "thresholds"), ({"init_thresholds": [1.0, 2.0, float("inf")]}, "thresholds"),
+                         ({"init_thresholds": [float("nan")]}, "thresholds")):
+        kw = dict({"init_thresholds": [1.0, 2.0, 3.0]}, **bad_kw)
+        case = {"kind": "domain", "what": what, "args": repr(bad_kw)}
+        ck.case(case, nontrivial=True, kind="domain")
+        try:
+            lay = LTT0(**kw)
+        except Exception:
+            ck.count("domain_rejected")
+            continue
+        with torch.no_grad():
+            ths = lay.get_thresholds()
+            y = lay(torch.tensor([0.5, 1.5, 2.5, 3.5]).reshape(1, 2, 2))
+        ordered = bool(torch.isfinite(ths).all()) and bool((ths[1:] > ths[:-1]).all())
+        mono = bool(torch.isfinite(y).all()) and bool((y[:, :-1] >= y[:, 1:]).all()) and bool(((y - 0.5).abs() > 1e-3).all())
+        if not (ordered and mono):
+            ck.disagree("a thermometer layer was built from arguments for which no valid ordered code exists, and returns numbers",
+                        dict(case, thresholds=repr(ths.tolist()), code=repr(y.flatten().tolist()[:8])),
+                        signature={"what": "domain-" + what})
     # integer-valued images stored in integer / half / double dtypes give the code of the float32 image (soft and frozen)
     from torchlogix.layers import LearnableThermometerThresholding as LTT
     torch.manual_seed(ck.seed + 3)
